@@ -332,3 +332,69 @@ def sessionData (E : Env) (body : Bytes) : SessOut :=
   | .oob => .crash
 
 end Cell2v.Codec
+
+namespace Cell2v.Codec
+
+/-! ## stream layer: `tcpPlayerConn.GetNextMessage` (pomelonet/server/acceptor/tcp_acceptor.go)
+
+The client's bytes reach the server in arbitrary fragments (TCP segments); the
+acceptor reassembles one framed packet per call with two
+`ioutil.ReadAll(io.LimitReader(conn, n))` reads.  `…F` = on a fragmented
+connection, without `F` = on the plain byte string. `readStream` calls
+`GetNextMessage` until it does not return a message (`fuel` bounds the number of
+calls; `s.length + 1` always suffices: `Props/C06.stream_fuel_enough`). -/
+
+inductive GOut | msg (m : Bytes) | closed | err
+  deriving DecidableEq, Repr
+
+inductive SEnd | closed | err | fuel
+  deriving DecidableEq, Repr
+
+/-- `ioutil.ReadAll(io.LimitReader(conn, n))` on a connection that delivers the byte stream in the
+fragments `fs` (one `Read` never crosses a fragment boundary): bytes read, fragments left -/
+def readN : List Bytes → Nat → Bytes × List Bytes
+  | [], _ => ([], [])
+  | f :: fs, n =>
+    if n = 0 then ([], f :: fs)
+    else if f.length ≤ n then
+      let r := readN fs (n - f.length)
+      (f ++ r.1, r.2)
+    else (f.take n, f.drop n :: fs)
+
+/-- `tcpPlayerConn.GetNextMessage` on a fragmented connection -/
+def getNextMessageF (fs : List Bytes) : GOut × List Bytes :=
+  let h := readN fs 4
+  if h.1.length = 0 then (.closed, h.2)
+  else match parseHeader h.1 with
+    | .error _ => (.err, h.2)
+    | .ok (size, _) =>
+      let b := readN h.2 size
+      if b.1.length < size then (.err, b.2) else (.msg (h.1 ++ b.1), b.2)
+
+/-- the same on the plain byte string (everything the client will ever send) -/
+def getNextMessage (s : Bytes) : GOut × Bytes :=
+  let h := s.take 4
+  if h.length = 0 then (.closed, s.drop 4)
+  else match parseHeader h with
+    | .error _ => (.err, s.drop 4)
+    | .ok (size, _) =>
+      let b := (s.drop 4).take size
+      if b.length < size then (.err, (s.drop 4).drop size) else (.msg (h ++ b), (s.drop 4).drop size)
+
+def readStreamF : Nat → List Bytes → List Bytes × SEnd
+  | 0, _ => ([], .fuel)
+  | fuel + 1, fs =>
+    match getNextMessageF fs with
+    | (.msg m, rest) => let r := readStreamF fuel rest; (m :: r.1, r.2)
+    | (.closed, _) => ([], .closed)
+    | (.err, _) => ([], .err)
+
+def readStream : Nat → Bytes → List Bytes × SEnd
+  | 0, _ => ([], .fuel)
+  | fuel + 1, s =>
+    match getNextMessage s with
+    | (.msg m, rest) => let r := readStream fuel rest; (m :: r.1, r.2)
+    | (.closed, _) => ([], .closed)
+    | (.err, _) => ([], .err)
+
+end Cell2v.Codec
